@@ -446,7 +446,10 @@ func addrForms(c *mon.Case, r *mon.Run) {
 	n := r.Pick(2000, 100000)
 	for i := 0; i < n; i++ {
 		tk := mkTokens(rng)
-		hosts := []string{tk.host, tk.v4, "[" + tk.v6 + "]", tk.v6, "[" + tk.v6 + "%eth0]", strings.ToUpper(tk.host), tk.host + ".", "", "[" + tk.v6, tk.v6 + "]"}
+		// v6d: an address whose last group consists of decimal digits only
+		v6d := fmt.Sprintf("2001:db8::%d", 1+rng.IntN(9999))
+		v6e := fmt.Sprintf("2001:db8:%x::%d:%d", rng.IntN(0xffff), rng.IntN(10), 1+rng.IntN(65535))
+		hosts := []string{tk.host, tk.v4, "[" + tk.v6 + "]", tk.v6, "[" + tk.v6 + "%eth0]", strings.ToUpper(tk.host), tk.host + ".", "", "[" + tk.v6, tk.v6 + "]", v6d, v6e, "::ffff:" + tk.v4, "[" + v6d + "]", "::" + fmt.Sprint(1+rng.IntN(65535))}
 		ports := []string{":443", ":0", ":65535", "", ":", ":http", ":443:80", ":99999"}
 		h := hosts[rng.IntN(len(hosts))]
 		p := ports[rng.IntN(len(ports))]
@@ -461,8 +464,29 @@ func addrForms(c *mon.Case, r *mon.Run) {
 				c.Violation("leak/ElideAddr", fmt.Sprintf("ElideAddr(%q) = %q contains %q", in, got, tok), map[string]any{"input": in, "output": got})
 			}
 		}
-		if _, port, err := net.SplitHostPort(in); err == nil && strings.HasSuffix(got, ":"+port) {
-			r.Count("addr_port_kept", 1)
+		// exact form: only the port of a well-formed host:port pair may
+		// remain; an input that is not such a pair (a bare IPv6 address ends
+		// in ":<digits>" too) must leave nothing but the placeholder.
+		const ph = "[scrubbed]"
+		if _, port, err := net.SplitHostPort(in); err == nil {
+			if got == ph+":"+port {
+				r.Count("addr_port_kept", 1)
+			} else if got != ph {
+				c.Violation("leak/ElideAddr-form/host-port", fmt.Sprintf("ElideAddr(%q) = %q; only %q or %q may remain of a host:port pair", in, got, ph, ph+":"+port), map[string]any{"input": in, "output": got})
+			}
+		} else {
+			if net.ParseIP(strings.Trim(in, "[]")) != nil {
+				r.Count("addr_bare_ip", 1)
+			}
+			if got != ph {
+				kind := "other"
+				if net.ParseIP(in) != nil {
+					kind = "bare-ip"
+				}
+				c.Violation("leak/ElideAddr-form/not-a-host-port-pair/"+kind, fmt.Sprintf("ElideAddr(%q) = %q; the input is not a host:port pair (%v), so only %q may remain", in, got, err, ph), map[string]any{"input": in, "output": got})
+			} else {
+				r.Count("addr_nothing_kept", 1)
+			}
 		}
 		_ = olog.Init(false, "", true)
 		if u := olog.ElideAddr(in); u != in {
